@@ -588,8 +588,16 @@ func callSSA(i *interpreter, caller *frame, callpos token.Pos, fn *ssa.Function,
 			panic(abort{AbortUnsupported, "no code for function: " + name})
 		}
 	}
-	if i.es.Covered != nil && fn.Pkg != nil && strings.HasPrefix(fn.Pkg.Pkg.Path(), i.es.P.RepoPrefix) {
-		i.es.Covered[fn]++
+	if i.es.Covered != nil {
+		// instances of generic functions have no package of their own: they are
+		// recorded under the generic function they come from
+		cf := fn
+		if cf.Pkg == nil && cf.Origin() != nil {
+			cf = cf.Origin()
+		}
+		if cf.Pkg != nil && strings.HasPrefix(cf.Pkg.Pkg.Path(), i.es.P.RepoPrefix) {
+			i.es.Covered[cf]++
+		}
 	}
 
 	// generic function body?
